@@ -630,10 +630,9 @@ var c08FnKeys = []string{"default parameter values", "free variables", "constant
 //	M<ordinal>       another occurrence of an already decoded function environment (a memo reference in the stamp);
 //	                 the ordinal is the number of function environments whose expansion started before that one.
 type c08SkState struct {
-	seen  map[any]bool
-	seenT map[*starlark.Value]bool
-	ord   map[*starlark.Dict]int
-	b     strings.Builder
+	seen map[any]bool
+	ord  map[*starlark.Dict]int
+	b    strings.Builder
 }
 
 func c08Skeleton(v starlark.Value, st *c08SkState) {
@@ -652,18 +651,8 @@ func c08Skeleton(v starlark.Value, st *c08SkState) {
 			fmt.Fprintf(b, "R%d", ord)
 			return
 		}
-		// The encoder does not memoize tuples, so one decoded tuple OBJECT is met twice only as the decoded form of a
-		// memoized host object -- a builtin, ("dawn","Builtin",(name, receiver)) since 6cdac65, whose receiver can hold
-		// functions -- and the encoder did not walk that a second time.
-		if len(v) > 0 {
-			if st.seenT == nil {
-				st.seenT = map[*starlark.Value]bool{}
-			}
-			if st.seenT[&v[0]] {
-				return
-			}
-			st.seenT[&v[0]] = true
-		}
+		// (a builtin decodes to the tuple (name[, receiver]) since 6cdac65; a receiver that can hold functions is a list,
+		// dict or set, i.e. a container the encoder memoizes and this walk expands once)
 		for _, e := range v {
 			c08Skeleton(e, st)
 		}
